@@ -210,6 +210,13 @@ def writeForever():
       # Avoid churning CPU when there are no metrics are in the cache
       time.sleep(1)
 
+  # The reactor may have been stopped while we were sleeping: datapoints
+  # accepted in the meantime still have to be written out.
+  try:
+    writeCachedDataPoints()
+  except Exception:
+    log.err()
+
 
 def writeTags():
   while True:
